@@ -19,6 +19,7 @@ sys.path.insert(0, VERIF)
 ENGINE_OF = {
     "C01": "chan", "C02": "chan", "C03": "chan",
     "C11": "hal",
+    "C12": "dm",
     "C13": "props",
     "C14": "sto", "C15": "sto", "C16": "sto",
     "C17": "simcam", "C18": "simcam",
